@@ -1,0 +1,54 @@
+//go:build verif
+
+// Copyright 2023 StreamNative, Inc.
+//
+// Licensed under the Apache License, Version 2.0 (the "License");
+// you may not use this file except in compliance with the License.
+// You may obtain a copy of the License at
+//
+//     http://www.apache.org/licenses/LICENSE-2.0
+//
+// Unless required by applicable law or agreed to in writing, software
+// distributed under the License is distributed on an "AS IS" BASIS,
+// WITHOUT WARRANTIES OR CONDITIONS OF ANY KIND, either express or implied.
+// See the License for the specific language governing permissions and
+// limitations under the License.
+
+package oxia
+
+import "github.com/oxia-db/oxia/oxia/internal"
+
+// Re-exports of internal client pieces for the verification harness (which lives outside this
+// module tree and cannot import oxia/internal).
+
+type VerifShard struct {
+	Id       int64
+	Min, Max uint32
+}
+
+type VerifShardTable struct {
+	sm *internal.VerifShardManager
+}
+
+func NewVerifShardTable(hash func(string) uint32) *VerifShardTable {
+	return &VerifShardTable{sm: internal.NewVerifShardManager(hash)}
+}
+
+func (t *VerifShardTable) Update(shards []VerifShard) {
+	in := make([]internal.Shard, len(shards))
+	for i, s := range shards {
+		in[i] = internal.Shard{Id: s.Id, HashRange: internal.HashRange{MinInclusive: s.Min, MaxInclusive: s.Max}}
+	}
+	t.sm.Update(in)
+}
+
+func (t *VerifShardTable) Get(key string) int64 { return t.sm.Get(key) }
+
+func (t *VerifShardTable) Shards() []VerifShard {
+	in := t.sm.Shards()
+	res := make([]VerifShard, len(in))
+	for i, s := range in {
+		res[i] = VerifShard{Id: s.Id, Min: s.HashRange.MinInclusive, Max: s.HashRange.MaxInclusive}
+	}
+	return res
+}
